@@ -20,8 +20,8 @@ package hash
 // the key is the location and the local name AS THEY ARE: two tasks whose names (or files) differ in any character -
 // in case, too - are different tasks with executions and outcomes of their own
 //@   site fmt.Sprintf#1 ghost nameKey := result
-//@   ensures result.0 == nameKey                                                                    [C06,C03,C01]
-//@   nosite strings.ToLower                                                                         [C06,C03,C01]
+//@   ensures result.0 == nameKey                                                                    [C06,C03,C01,C14]
+//@   nosite strings.ToLower                                                                         [C06,C03,C01,C14]
 
 // The when_changed key hashes the whole compiled task with hashstructure's default options (order sensitive,
 // every exported field); what hashstructure covers is examined by the structural clause fields_hashed.
